@@ -124,8 +124,11 @@ class Oracle:
             except Exception:
                 pass
 
+    def kw_coq(self):
+        return coq.clist(["(%s, %d)" % (coq.ctext(k), v) for k, v in self.kw.items()])
+
     # Coq literal of the tables
-    def coq(self):
+    def coq(self, kwname=None):
         def res_nat(r):
             return "(Ok %d)" % r[1] if r[0] == "ok" else "(Err %s)" % r[1]
 
@@ -135,7 +138,7 @@ class Oracle:
         def lst(items, ty):
             return coq.clist(items) if items else "(@nil (%s))" % ty
 
-        kw = lst(["(%s, %d)" % (coq.ctext(k), v) for k, v in self.kw.items()], "text * nat")
+        kw = self.kw_coq() if kwname is None else kwname
         attr = lst(["(%d, %s, %s)" % (v, coq.ctext(k), res_nat(r)) for (v, k), r in self.attr.items()], "nat * text * res nat")
         iint = lst(["(%d, %d%%N, %s)" % (v, k, res_nat(r)) for (v, k), r in self.iint.items()], "nat * N * res nat")
         istr = lst(["(%d, %s, %s)" % (v, coq.ctext(k), res_nat(r)) for (v, k), r in self.istr.items()], "nat * text * res nat")
@@ -336,10 +339,12 @@ NO_MAGIC_CTX = {"a": "Aa", "b": "tbl", "w": 6, "n": 42}
 # ---- generators ------------------------------------------------------------------------------------------------
 
 def gen_exhaustive(tier):
-    alpha = "{}a.:! " if tier == "quick" else "{}a.:! []"
-    for n in range(0, 6):
-        for tup in itertools.product(alpha, repeat=n):
-            yield "".join(tup)
+    """all strings over the alphabet up to the bound (the second alphabet adds the index brackets)"""
+    bounds = [("{}a.:! ", 4)] if tier == "quick" else [("{}a.:! ", 5), ("{}a.:![]", 4)]
+    for alpha, bound in bounds:
+        for n in range(0, bound + 1):
+            for tup in itertools.product(alpha, repeat=n):
+                yield "".join(tup)
 
 
 GRID_NAMES = ["a", "a.b", "x.y", "t.col", "mi.ss", "a.b.c", "n.real", "f.v", "s.w", "b", "n", "f", "zz", "d[k]", "l[1]", "d[x.y]", "l[7]", "a.b[0]", "", "0"]
@@ -413,7 +418,8 @@ def gen_malformed(rng):
 
 # ---- running ---------------------------------------------------------------------------------------------------
 
-RENDER_FN = ("fun c : text * otab => let '(s, o) := c in (t_render o s, t_spec o s, t_format o s)")
+MODEL_FN = ("fun c : text * otab => let '(s, o) := c in (dot_hack s, parse_fmt s, (t_render o s, t_spec o s, t_format o s))")
+CONTEXTS = {}
 
 
 def coq_res(r):
@@ -423,35 +429,38 @@ def coq_res(r):
     return ("exc", r[1][0] if isinstance(r[1], tuple) else r[1])
 
 
+def slicer_attrs(s, proc):
+    return {"mechanism": "slice_file", "outcome": proc[2] if proc[0] == "exc" else "differs",
+            "empty_format_spec": bool(re.search(r":}", s))}
+
+
 def run_python_part(ctx, coq_ok):
     real = RealPython()
     rng = ctx.rng
     quick = ctx.tier == "quick"
-    cases = []  # (source, context name, context, stream)
+    cases = []  # (source, context name, stream)
     for s in gen_exhaustive(ctx.tier):
-        cases.append((s, "small", SMALL_CTX, "exhaustive"))
+        cases.append((s, "small", "exhaustive"))
     for s in gen_grid(ctx.tier):
-        cases.append((s, "big", BIG_CTX, "grid"))
-    for _ in range(4000 if quick else 60000):
-        cases.append((gen_tree(rng), "big", BIG_CTX, "random"))
-    for _ in range(300 if quick else 4000):
-        cases.append((gen_tree(rng), "nomagic", NO_MAGIC_CTX, "random-nomagic"))
-    for _ in range(1500 if quick else 20000):
-        cases.append((gen_malformed(rng), "big", BIG_CTX, "malformed"))
+        cases.append((s, "big", "grid"))
+    for _ in range(2500 if quick else 20000):
+        cases.append((gen_tree(rng), "big", "random"))
+    for _ in range(300 if quick else 2000):
+        cases.append((gen_tree(rng), "nomagic", "random-nomagic"))
+    for _ in range(700 if quick else 6000):
+        cases.append((gen_malformed(rng), "big", "malformed"))
     seen = set()
     uniq = []
     for c in cases:
-        k = (c[0], c[1])
-        if k not in seen:
-            seen.add(k)
+        if c[:2] not in seen:
+            seen.add(c[:2])
             uniq.append(c)
     cases = uniq
 
     lits, expect = [], []
-    hack_cases, parse_cases = [], []
     pattern_checked = False
-    for (s, cname, cx, stream) in cases:
-        r = real.run(s, cx, via_config=False)
+    for (s, cname, stream) in cases:
+        r = real.run(s, CONTEXTS[cname])
         live = r["live"]
         subs = r["subs"]
         # -- the regex under the model is the regex in the source
@@ -474,59 +483,51 @@ def run_python_part(ctx, coq_ok):
         ctx.case((s, cname) if nontriv else None, bucket="py:%s:%s" % (stream, "valid" if arb[0] == "ok" else "invalid"),
                  sample={"source": s, "context": cname, "arbiter": arb, "templater": proc[:2]} if nontriv and arb[0] == "ok" and len(s) > 12 else None)
         unspecified = any(("." in f[1] and ("[" in f[1] or "]" in f[1])) for f in fields_of(s))
-        if not unspecified:
-            if arb[0] == "ok":
-                if proc[0] != "ok" or proc[1] != arb[1]:
-                    if rendered is not None and rendered == ("ok", arb[1]):
-                        ctx.violation("python-slicer-changes-rendering",
-                                      "PythonTemplater.process returned a templated_str different from what its own render_func produced "
-                                      "(which equals str.format with the dotted-name convention)",
-                                      {"input": inp, "expected": arb[1], "got": proc}, attrs={"mechanism": "slice_file"})
-                    else:
-                        mech = classify(s)
-                        what = ("valid format string fails to render: %s" % proc[2]) if proc[0] != "ok" else "rendered text differs from str.format"
-                        ctx.violation("python-dot-hack", "python templater: %s (dot-notation regex vs format grammar: %s)" % (what, mech),
-                                      {"input": inp, "expected": arb[1], "got": proc, "rewritten": hacked},
-                                      attrs={"mechanism": mech, "outcome": "raises" if proc[0] != "ok" else "differs"})
-            elif proc[0] == "ok":
-                ctx.violation("python-invalid-renders", "python templater renders a format string that str.format (dotted-name convention) rejects",
-                              {"input": inp, "arbiter": arb, "got": proc, "rewritten": hacked}, attrs={"mechanism": classify(s)})
-        else:
+        if unspecified:
             ctx.count("py:unspecified-dotted-index")
+        elif arb[0] == "ok":
+            if proc[:2] != arb:
+                if rendered == arb:
+                    ctx.violation("python-slicer-changes-rendering",
+                                  "python templater: render_func produced the str.format result but PythonTemplater.process %s"
+                                  % ("raised %s" % proc[2] if proc[0] == "exc" else "returned a different templated_str"),
+                                  {"input": inp, "expected": arb[1], "got": proc}, attrs=slicer_attrs(s, proc))
+                else:
+                    mech = classify(s)
+                    what = ("valid format string fails to render: %s" % proc[2]) if proc[0] != "ok" else "rendered text differs from str.format"
+                    ctx.violation("python-dot-hack", "python templater: %s (dot-notation regex vs format grammar: %s)" % (what, mech),
+                                  {"input": inp, "expected": arb[1], "got": proc, "rewritten": hacked},
+                                  attrs={"mechanism": mech, "outcome": "raises" if proc[0] != "ok" else "differs"})
+        elif proc[0] == "ok":
+            ctx.violation("python-invalid-renders", "python templater renders a format string that str.format (dotted-name convention) rejects",
+                          {"input": inp, "arbiter": arb, "got": proc, "rewritten": hacked}, attrs={"mechanism": classify(s)})
         # -- arbiter self-check: without dotted names it IS str.format
+        direct = py_str_format(s, live)
         if not dotted:
-            direct = py_str_format(s, live)
             if (direct[0] == "ok") != (arb[0] == "ok") or (direct[0] == "ok" and direct[1] != arb[1]):
                 ctx.broken_obligation("arbiter self-check: string.Formatter arbiter vs str.format on a string without dotted names",
                                       {"input": inp, "arbiter": arb, "str.format": direct})
         # -- correspondence data
         orc = Oracle(live)
         orc.record(s, hacked)
-        lits.append("(%s, %s)" % (coq.ctext(s), orc.coq()))
-        direct = py_str_format(s, live)
+        lits.append("(%s, %s)" % (coq.ctext(s), orc.coq("kw_" + cname)))
         expect.append((s, cname, rendered, direct, hacked, arb))
     ctx.coverage_extra["python_cases"] = len(cases)
     if not coq_ok:
         return
-    # 1. dot_hack vs re.sub (the real call's result)
-    model = coq.eval_sharded(["Model.PyFormat"], "dot_hack", [coq.ctext(e[0]) for e in expect], shard=400, jobs=4)
-    for e, m in zip(expect, model):
-        got = "".join(chr(c) for c in m)
-        if got != e[4]:
-            ctx.broken_obligation("correspondence Model.PyFormat.dot_hack vs re.sub in render_func", {"input": e[0], "model": got, "impl": e[4]})
-            break
-    # 2. parse_fmt vs CPython's formatter_parser
-    model = coq.eval_sharded(["Model.PyFormat"], "parse_fmt", [coq.ctext(e[0]) for e in expect], shard=400, jobs=4)
-    for e, m in zip(expect, model):
-        a, b = canon_items(m), canon_pyparse(e[0])
-        if a != b:
-            ctx.broken_obligation("correspondence Model.PyFormat.parse_fmt vs _string.formatter_parser", {"input": e[0], "model": a, "impl": b})
-            break
-    # 3. rendering: render_func, and str.format itself
-    model = coq.eval_sharded(["Model.PyFormat"], RENDER_FN, lits, shard=300, jobs=4)
+    defs = "".join("Definition kw_%s : list (text * nat) := %s.\n" % (cname, Oracle(dict_ctx(cname)).kw_coq()) for cname in CONTEXTS)
+    model = coq.eval_sharded(["Model.PyFormat"], MODEL_FN, lits, shard=800, jobs=4, defs=defs)
     for e, m in zip(expect, model):
         s, cname, rendered, direct, hacked, arb = e
-        m_render, m_spec, m_format = coq_res(m[0]), coq_res(m[1]), coq_res(m[2])
+        got = "".join(chr(c) for c in m[0])
+        if got != hacked:
+            ctx.broken_obligation("correspondence Model.PyFormat.dot_hack vs re.sub in render_func", {"input": s, "model": got, "impl": hacked})
+            break
+        a, b = canon_items(m[1]), canon_pyparse(s)
+        if a != b:
+            ctx.broken_obligation("correspondence Model.PyFormat.parse_fmt vs _string.formatter_parser", {"input": s, "model": a, "impl": b})
+            break
+        m_render, m_spec, m_format = coq_res(m[2][0]), coq_res(m[2][1]), coq_res(m[2][2])
         if "EFuel" in (m_render[1], m_spec[1], m_format[1]):
             ctx.broken_obligation("harness: oracle table incomplete (model asked a question the CPython run did not)", {"input": s, "context": cname})
             break
@@ -539,17 +540,19 @@ def run_python_part(ctx, coq_ok):
                                   {"input": s, "context": cname, "model": m_format, "impl": direct})
             break
         if (m_spec[0] == "ok") != (arb[0] == "ok") or (arb[0] == "ok" and m_spec[1] != arb[1]):
-            ctx.broken_obligation("correspondence Model.PyFormat.spec_render vs the string.Formatter arbiter",
+            ctx.broken_obligation("correspondence Model.PyFormat.spec_process vs the string.Formatter arbiter",
                                   {"input": s, "context": cname, "model": m_spec, "arbiter": arb})
             break
     ctx.coverage_extra["python_model_vs_impl_cases"] = len(lits)
 
 
 def dict_ctx(cname):
-    base = {"small": SMALL_CTX, "big": BIG_CTX, "nomagic": NO_MAGIC_CTX}[cname]
     d = {"test_value": "__test__"}
-    d.update(base)
+    d.update(CONTEXTS[cname])
     return d
+
+
+CONTEXTS.update({"small": SMALL_CTX, "big": BIG_CTX, "nomagic": NO_MAGIC_CTX})
 
 
 def canon_items(items):
@@ -557,6 +560,9 @@ def canon_items(items):
     out = []
     for it in items:
         if it == ("Bad",) or it == "Bad":
+            # CPython raises before yielding the literal text that precedes the malformed construct
+            while out and out[-1][0] == "lit":
+                out.pop()
             out.append(("bad",))
             break
         if it[0] == "Lit":
@@ -584,6 +590,8 @@ def canon_pyparse(s):
             if name is not None:
                 out.append(("fld", name, conv, spec))
     except ValueError:
+        while out and out[-1][0] == "lit":
+            out.pop()
         out.append(("bad",))
     return out
 
